@@ -630,6 +630,10 @@ impl Op for CloseOp {
     type Resources = ();
     type Args = (RawFd, fd::Kind);
 
+    // As with close(2) the descriptor is closed even if the call is interrupted,
+    // closing it again might close a descriptor opened by someone else.
+    const RESTART_INTERRUPTED: bool = false;
+
     #[allow(clippy::cast_sign_loss)]
     fn fill_submission(
         (): &mut Self::Resources,
